@@ -351,7 +351,42 @@ def r5_primitive_parametrisations(repo: Repo, rep):
             if fi is None:
                 continue
             if cname == "Sphere" and mname == "sample_grid":
-                continue  # box grid filtered by the norm + random top-up: the filter is the membership predicate itself
+                # box grid filtered by the norm + random top-up: the vector whose norm the filter bounds by r must be p - c of the points passed on
+                rep.saw(fi)
+                done = False
+                for p in paths(fi.node):
+                    if p.ret is RAISE or p.ret is None:
+                        continue
+                    filt = [c for e in p.events if e.value is not None for c in ast.walk(e.value)
+                            if isinstance(c, ast.Call) and dump(c.func) == "self._get_points_inside" and len(c.args) == 2]
+                    passed = [c.args[0] for e in p.events if e.value is not None for c in ast.walk(e.value)
+                              if isinstance(c, ast.Call) and dump(c.func) == "self._append_random" and c.args]
+                    if not filt or not passed:
+                        continue
+                    done = True
+
+                    def atom(n, ev, base=_prim_atom(dim)):
+                        if isinstance(n, ast.Call) and dump(n.func) == "self._point_grid_in_box":
+                            return Vec([RF.atom(f"G.{i}") for i in range(dim)])
+                        if isinstance(n, ast.Call) and dump(n.func) == "self._get_points_inside" and len(n.args) == 2:
+                            return ev.ev(n.args[0])  # the filter keeps rows, it does not change them
+                        return base(n, ev)
+                    try:
+                        ev = SymEval(atom)
+                        filtered_arg = ev.ev(expand_helpers(repo, ci, filt[0].args[0], domain_cls=dci, accept=lambda f: f.name.startswith("_compute_center")))
+                        out = ev.ev(expand_helpers(repo, ci, passed[0], domain_cls=dci, accept=lambda f: f.name.startswith("_compute_center")))
+                        c = Vec([RF.atom(f"c.{i}") for i in range(dim)])
+                        ok = isinstance(out, Vec) and isinstance(filtered_arg, Vec) and binop("-", out, c) == filtered_arg
+                        rep.check(R6, ok, fi.site(p.ret_node), fi.fq, "grid points kept by |x| <= r are returned as x + c (the filter bounds |p - c|)",
+                                  f"filter bounds |{filtered_arg!r}|, returned p = {out!r}"[:240], f"filter on {filtered_arg!r}, p = {out!r}"[:200])
+                        rr = dump(filt[0].args[1])
+                        rep.check(R6, "radius" in rr or "_compute_center_and_radius" in rr, fi.site(p.ret_node), fi.fq, "the filter radius is the sphere's radius", rr[:80], rr[:80])
+                    except (NotSym, NotPoly) as err:
+                        rep.undecided(R6, fi.site(p.ret_node), fi.fq, "filtered grid evaluable", str(err))
+                    break
+                if not done:
+                    rep.undecided(R6, fi.site(), fi.fq, "a path filtering the box grid and passing it on", "not found")
+                continue
             rep.saw(fi)
             for p in paths(fi.node):
                 if p.ret is RAISE or p.ret is None:
@@ -450,6 +485,8 @@ def run(repo: Repo, rep):
     r4_cramer(repo, rep)
     from .c02 import r9_motion_params  # a point moved with another row's motion lies in another row's domain
     r9_motion_params(repo, rep)
+    from .c11 import r4_mirror  # barycentric pairs stay admissible only if the pairs with u + v >= 1 (and only those rows) are mirrored
+    r4_mirror(repo, rep)
 
 
 _H = "src/torchphysics/problem/domains/domainoperations/sampler_helper.py"
